@@ -145,6 +145,7 @@ def main(argv=None):
     ap.add_argument("--verbose", "-v", action="store_true")
     a = ap.parse_args(argv)
     seed = int(os.environ.get("VERIF_SEED", "0") or 0)
+    os.environ["VERIF_TIER"] = a.tier          # the bounded enumerators widen their bounds in the thorough tier
     t0 = time.time()
     prop = a.prop
     os.makedirs(os.path.join(ROOT, "replays", ".work"), exist_ok=True)
@@ -277,7 +278,7 @@ def run_enumerators(eng, prop, a, seed, results, ctx):
         cc.close()
         procs.append((en, hit, pr, pc, time.time()))
     out = []
-    limit = 300 if a.tier == "quick" else 1800
+    limit = 300 if a.tier == "quick" else 3600
     for en, hit, pr, pc, t1 in procs:
         res = None
         if pc.poll(max(1, limit - (time.time() - t1))):
